@@ -106,6 +106,85 @@ def gen_collapse(rng, shape="collapse"):
     return sc
 
 
+def gen_collapse_scan(rng, shape="collapse-scan"):
+    """a scan standing between two borders while the one it just left is emptied and unlinked and keys at or
+    below the ones already delivered are (re)inserted: they land in the next border, whose range grew to the left"""
+    keys = [bytes([0x30 + 2 * i]) for i in range(20)]
+    st = b"s"
+    setup = [(k, b"i" + k[-1:]) for k in keys]
+    keep = rng.choice([1, 1, 2])
+    removed = keys[keep:rng.choice([7, 8])]
+    victims = keys[:keep]
+    t1 = ["rem %s %s" % (hx(st), hx(k)) for k in victims]
+    back = rng.choice([victims[0], victims[-1], victims[0] + b"a", bytes([victims[0][0] - 1])])
+    t1.append("put %s %s %s 1 0" % (hx(st), hx(back), hx(b"again")))
+    mode = rng.random()
+    if mode < 0.6:
+        t0 = ["scan %s - INF - INF 0 0" % hx(st)]
+    elif mode < 0.8:
+        t0 = ["scan %s - INF - INF %d 0" % (hx(st), rng.choice([3, 5]))]
+    else:
+        t0 = ["scan %s %s IN %s IN 0 0" % (hx(st), hx(keys[0]), hx(keys[15]))]
+    threads = [t0, t1]
+    sc = Scenario(shape, setup, threads, sorted(set(keys) | {back}), st)
+    sc.removed = tuple(removed)
+    return sc
+
+
+def catalogue():
+    """targeted scenarios aimed at the case splits of the protocol (run exhaustively with one preemption in every
+    tier, before the random scenarios): -> list of Scenario"""
+    st = b"s"
+    S = hx(st)
+    out = []
+
+    def mk(name, keys, threads, removed=(), extra_finals=()):
+        setup = [(k, b"i" + k[-1:]) for k in keys]
+        sc = Scenario("cat:" + name, setup, threads, sorted(set(keys) | set(extra_finals)), st)
+        sc.removed = tuple(removed)
+        out.append(sc)
+
+    full = [bytes([0x41 + 2 * i]) for i in range(15)]
+    two = [bytes([0x30 + 2 * i]) for i in range(20)]
+    sub = [b"prefix88a", b"prefix88b", b"prefix88c", b"a", b"z"]
+    links_only = [b"prefix88a", b"prefix88b", b"prefiy88a", b"prefiy88b"]
+    P = lambda k, v: "put %s %s %s 1 0" % (S, hx(k), hx(v))
+    U = lambda k, v: "uput %s %s %s 1 0" % (S, hx(k), hx(v))
+    R = lambda k: "rem %s %s" % (S, hx(k))
+    G = lambda k: "get %s %s" % (S, hx(k))
+    ALL = "scan %s - INF - INF 0 0" % S
+    RTL = "scan %s - INF - INF 1 1" % S
+    # same new key inserted twice
+    for nm, keys, k in (("single", [b"a", b"c"], b"b"), ("full", full, b"B"), ("sublayer", sub, b"prefix88d"),
+                        ("newlayer", sub, b"prefix99x")):
+        mk("uput-uput-" + nm, keys, [[U(k, b"t0")], [U(k, b"t1x")]], extra_finals=[k])
+        mk("put-put-rem-" + nm, keys, [[P(k, b"t0")], [P(k, b"t1x"), R(k), G(k)]], extra_finals=[k])
+    # update of an existing key while its border splits / is emptied and unlinked
+    for k in (full[1], full[7], full[8], full[13]):
+        mk("update-vs-split-%s" % k.hex(), full, [[P(k, b"upd")], [P(b"J" + b"x", b"new")]], extra_finals=[b"Jx"])
+    mk("update-vs-unlink", two, [[P(two[0], b"upd")], [R(two[0])]], removed=two[1:8])
+    mk("get-vs-unlink", two, [[G(two[0]), G(two[12])], [R(two[0]), P(two[0], b"again")]], removed=two[1:8])
+    mk("rem-rem", [b"a", b"b"], [[R(b"a")], [R(b"a")]])
+    mk("rem-put-get", [b"a", b"b"], [[R(b"a"), G(b"a")], [P(b"a", b"nw")], [G(b"a")]])
+    # scans against splits
+    for newk in (b"Z", b"J", b"B"):
+        mk("rtl-vs-split-%s" % newk.hex(), full, [[RTL], [P(newk, b"new")]], extra_finals=[newk])
+        mk("scan-vs-split-%s" % newk.hex(), full, [[ALL], [P(newk, b"new")]], extra_finals=[newk])
+        mk("limited-vs-split-%s" % newk.hex(), full, [["scan %s - INF - INF 9 0" % S], [P(newk, b"new")]], extra_finals=[newk])
+    mk("rtl-vs-split-two", two, [[RTL], [P(two[-1] + b"a", b"new"), P(two[-1] + b"b", b"new")]],
+       extra_finals=[two[-1] + b"a", two[-1] + b"b"])
+    # scan whose in-range entries of the enclosing border are all layer links, against an insert into that border
+    mk("links-only-scan-vs-insert", links_only, [[ALL], [P(b"q", b"new")]], extra_finals=[b"q"])
+    mk("links-only-range-vs-insert", sub, [["scan %s %s IN %s IN 0 0" % (S, hx(b"prefix88"), hx(b"prefix88z"))],
+                                           [P(b"prefix88", b"new")]], extra_finals=[b"prefix88"])
+    mk("sublayer-scan-vs-layer-insert", sub, [[ALL], [P(b"prefix88bb", b"new")]], extra_finals=[b"prefix88bb"])
+    # scan standing between two borders while the left one is emptied and unlinked (F8)
+    mk("scan-vs-unlink-reinsert", two, [["scan %s %s IN %s IN 0 0" % (S, hx(two[0]), hx(two[15]))],
+                                        [R(two[0]), P(two[0], b"again")]], removed=two[1:8])
+    mk("scan-vs-unlink-smaller", two, [[ALL], [R(two[0]), P(b"/", b"small")]], removed=two[1:8], extra_finals=[b"/"])
+    return out
+
+
 def gen_storage_race(rng, shape="storages"):
     """concurrent create/create, delete/delete and create/delete/find on the same names"""
     existing = [b"t1", b"t12345678", b"t123456789"][:rng.choice([0, 1, 2, 3])]
@@ -436,6 +515,10 @@ def check_run(r, scen, want=("lin", "null", "scan", "deadlock", "coherent")):
         for stn, body in r.fscan.items():
             m = re.match(r"(\S+) \[(.*)\]", body)
             if m:
+                slist = [unhex(x) for x in m.group(2).split()]
+                if slist != sorted(set(slist)):
+                    bad.append(("coherent", "full scan at quiescence is not strictly ascending (duplicate or misplaced "
+                                "entry): %s" % m.group(2)))
                 skeys = set(m.group(2).split())
                 gkeys = {k for (s2, k), v in r.final.items() if s2 == stn and v.startswith("OK")}
                 allq = {k for (s2, k) in r.final if s2 == stn}
@@ -610,7 +693,7 @@ def border_batch(lines, workdir):
 
 
 def run_conc_property(res, tag, want, shapes, kinds, scans, budget_quick, budget_thorough, tie_shapes=("single", "last", "empty"),
-                      strategies_quick=("preempt1",), strategies_thorough=("preempt1", "preempt2", "pct")):
+                      strategies_quick=("preempt1",), strategies_thorough=("preempt1", "preempt2", "pct"), use_catalogue=True):
     """generic flow for a property explored under the scheduler with verified oracles"""
     pid = res.pid
     st = C.property_status(pid)
@@ -662,11 +745,25 @@ def run_conc_property(res, tag, want, shapes, kinds, scans, budget_quick, budget
                     for (k, iv, lst), okv in zip(r.lin_jobs, lin_batch(r.lin_jobs, wd)):
                         if not okv:
                             viol.append(("lin", "history of key %s not linearizable" % k.hex(), txt, r.schedule))
+    if use_catalogue:
+        for sc in catalogue():
+            if not scans and any(o.startswith("scan") for ops in sc.threads for o in ops):
+                continue
+            n, v, steps, dist, runs = explore_runs(binary, sc, "preempt1", wd, 1600, rng, want)
+            total_runs += n
+            total_steps += steps
+            distinct += dist
+            viol += v
+            shape_counts["catalogue"] = shape_counts.get("catalogue", 0) + n
     n_scen = 2 if res.tier == "quick" else 8
+    special = {"collapse": gen_collapse, "collapse-scan": gen_collapse_scan}
     for shape in shapes:
         for j in range(n_scen):
-            sc = gen_scenario(rng, shape, kinds=kinds, scans=scans,
-                              nthreads=rng.choice([2, 2, 3]), ops_per_thread=rng.choice([1, 2]))
+            if shape in special:
+                sc = special[shape](rng, shape)
+            else:
+                sc = gen_scenario(rng, shape, kinds=kinds, scans=scans,
+                                  nthreads=rng.choice([2, 2, 3]), ops_per_thread=rng.choice([1, 2]))
             for strat in strategies:
                 n, v, steps, dist, runs = explore_runs(binary, sc, strat, wd, budget, rng, want)
                 total_runs += n
